@@ -115,6 +115,27 @@ def rule_r1(ctx: Ctx) -> None:
         if got == "accept":
             bad2.append({"colliding positions": pos})
     ctx.check(not bad2, fn.short, "all pairs of the argument", "every pair of the given types must be compared", fn.where(), bad2)
+    # lists of three: the decision is the disjunction over all pairs, whatever else is in the list - in particular other
+    # minor versions of a colliding definition that carry no port-ID (it may be added in a newer minor) and other majors
+    slots = [("ns.A", 1, 0), ("ns.A", 1, 1), ("ns.A", 2, 0), ("ns.B", 1, 0), ("ns.B", 1, 1), ("ns.B", 0, 1)]
+    bad3 = []
+    n3 = 0
+    for chosen in itertools.combinations(slots, 3):
+        for ports in itertools.product((None, 5), repeat=3):
+            if sum(1 for p_ in ports if p_ is not None) < 2:
+                continue
+            defs = [_definition(ctx, nm, ma, mi, False, p_) for (nm, ma, mi), p_ in zip(chosen, ports)]
+            want = False
+            for x, y in itertools.combinations(defs, 2):
+                must = x.full_name != y.full_name or (x.version.major != y.version.major and x.version.major > 0 and y.version.major > 0)
+                want = want or (must and x.fixed_port_id is not None and x.fixed_port_id == y.fixed_port_id)
+            for order in itertools.permutations(defs):
+                got = _outcome(ctx, fn, [list(order)])
+                n3 += 1
+                if (got != "accept") != want:
+                    bad3.append({"list": ["%s port %s" % (d.source_file_path, d.fixed_port_id) for d in order], "found": got, "expected": "collision error" if want else "accept"})
+    ctx.count(n3)
+    ctx.check(not bad3, fn.short, "lists of three definitions (%d evaluations)" % n3, "a collision between two definitions is found whatever other versions of them are in the list (a port-ID may be added in a newer minor version)", fn.where(), bad3[:3])
 
 
 def _spec_pairwise(a: Any, b: Any) -> List[str]:
